@@ -15,7 +15,7 @@
 (* anchor/z lies strictly below a/x (a/x would be a prefix of an anchor: nested selection) nor      *)
 (* strictly below a/y (a/y was free, the anchor exists), so the relation survives ([SimD_step]).    *)
 From Tempren Require Import Base.Str Py.PathLib FS.Model FS.Lemmas FS.PlainPaths FS.WfCheck.
-From Tempren Require Import Pipe.Pipeline Pipe.DrySim Pipe.DryEqualsReal Pipe.DryEqualsRealCheck.
+From Tempren Require Import Pipe.Pipeline Pipe.DestParent Pipe.DrySim Pipe.DryEqualsReal Pipe.DryEqualsRealCheck.
 Open Scope N_scope.
 
 (* ---------- the statement's vocabulary --------------------------------------------------------- *)
@@ -500,6 +500,8 @@ Proof.
       rewrite (contained_dd s0 f np _ W0 Pdd), (contained_dd (w_fs wr) f np _ (sd_wf _ _ HS) Pdd').
       destruct (is_prefix_path (pf_dir f) (removelast (pf_dir f ++ removelast (pp_parts (pf_rel f))))).
       2:{ intros Ed Er; inversion Ed; inversion Er; subst. fpd_done. }
+      rewrite (dest_parent_test_generated fixed _ s0 f _ np G eq_refl (source_contained_rel s0 f W0 Ps)),
+              (dest_parent_test_generated fixed _ (w_fs wr) f _ np G eq_refl (source_contained_rel (w_fs wr) f (sd_wf _ _ HS) Ps')).
       rewrite (parents_contained_dd s0 f np _ W0 Pdd), (parents_contained_dd (w_fs wr) f np _ (sd_wf _ _ HS) Pdd').
       rewrite (source_contained_rel s0 f W0 Ps), (source_contained_rel (w_fs wr) f (sd_wf _ _ HS) Ps').
       destruct (simd_renamer_dd wd wr (pf_dir f) (pf_rel f) np _ HS Pdd Ha) as [-> ->].
@@ -522,6 +524,8 @@ Proof.
       rewrite (contained_rel (w_fs wr) f np (sd_wf _ _ HS) Pd' NLr).
       destruct (is_prefix_path (pf_dir f) (pf_dir f ++ pp_parts np)).
       2:{ intros Ed Er; inversion Ed; inversion Er; subst. fpd_done. }
+      rewrite (dest_parent_test_generated fixed _ s0 f _ np G eq_refl (source_contained_rel s0 f W0 Ps)),
+              (dest_parent_test_generated fixed _ (w_fs wr) f _ np G eq_refl (source_contained_rel (w_fs wr) f (sd_wf _ _ HS) Ps')).
       rewrite (parents_contained_rel s0 f np W0 Pd), (parents_contained_rel (w_fs wr) f np (sd_wf _ _ HS) Pd').
       rewrite (source_contained_rel s0 f W0 Ps), (source_contained_rel (w_fs wr) f (sd_wf _ _ HS) Ps').
       destruct (renamer dD wd (pf_dir f) (pf_rel f) np false) as [wd1 ed1] eqn:Rd.
